@@ -114,17 +114,30 @@ Fixpoint replay (chk : queues -> bool) (grd : queues -> req -> bool)
   | _, _ => false
   end.
 
-Definition law_with (chk : queues -> bool) (grd : queues -> req -> bool)
-           (c : cfg) (Q0 : queues) (rs : list req) (vs : list Z) : bool :=
-  if tree_okb c Q0 then replay chk grd Q0 rs vs else true.
+(* Every law is gated on exactly the hypothesis of the theorem that backs it, evaluated on the
+   initial queue set (when the gate is false the law answers true without replaying: on such
+   histories only the model-vs-implementation comparison of the verdicts speaks):
+     101 shape        1 <= MaxQueueDepth and shape_okb Q0              (shape_step)
+     102 per-queue    per_okb Q0                                       (per_queue_step)
+     103 sums         1 <= Max, shape_okb, per_okb, sums_okb Q0        (sum_step)
+     104 capability   1 <= Max, shape_okb, caps_okb Q0                 (cap_step)
+     105, 107 delete  none                                             (delete_guard)
+     106 capacity     none on Q0 (shape_okb of the final set)          (shape_capacity_ready)
+     108 gate         tree_okb Q0 itself, emitted for the families whose initial set is a tree *)
+Definition law_gated (gate : bool) (chk : queues -> bool) (grd : queues -> req -> bool)
+           (Q0 : queues) (rs : list req) (vs : list Z) : bool :=
+  if gate then replay chk grd Q0 rs vs else true.
 
 Definition no_guard (_ : queues) (_ : req) : bool := true.
+Definition depth_okb (c : cfg) : bool := 1 <=? max_depth c.
 
-Definition law_shape c := law_with (shape_okb c) no_guard c.
-Definition law_per c := law_with per_okb no_guard c.
-Definition law_sums c := law_with sums_okb no_guard c.
-Definition law_caps c := law_with caps_okb no_guard c.
-Definition law_delete c := law_with (fun _ => true) (delete_guardb c) c.
+Definition law_shape c Q0 := law_gated (depth_okb c && shape_okb c Q0) (shape_okb c) no_guard Q0.
+Definition law_per (c : cfg) Q0 := law_gated (per_okb Q0) per_okb no_guard Q0.
+Definition law_sums c Q0 :=
+  law_gated (depth_okb c && shape_okb c Q0 && per_okb Q0 && sums_okb Q0) sums_okb no_guard Q0.
+Definition law_caps c Q0 := law_gated (depth_okb c && shape_okb c Q0 && caps_okb Q0) caps_okb no_guard Q0.
+Definition law_delete c Q0 := law_gated true (fun _ => true) (delete_guardb c) Q0.
+Definition law_gate c Q0 (rs : list req) (vs : list Z) : bool := depth_okb c && tree_okb c Q0.
 
 (* the deletion clause of the property text at full strength: an admitted DELETE never targets a
    queue whose status shows allocated pods, whatever the configuration *)
@@ -133,7 +146,7 @@ Definition delete_allocb (Q : queues) (r : req) : bool :=
   | Delete n => match Q !! n with Some s => bool_decide (qalloc s = 0) | None => true end
   | _ => true
   end.
-Definition law_delete_alloc c := law_with (fun _ => true) delete_allocb c.
+Definition law_delete_alloc (c : cfg) Q0 := law_gated true (fun _ => true) delete_allocb Q0.
 
 (* the real capacity plugin accepted the hierarchy the history ended in *)
 Fixpoint replay_final (Q : queues) (rs : list req) (vs : list Z) : queues :=
@@ -142,5 +155,4 @@ Fixpoint replay_final (Q : queues) (rs : list req) (vs : list Z) : queues :=
   | _, _ => Q
   end.
 Definition law_capacity (c : cfg) (Q0 : queues) (rs : list req) (vs : list Z) (ready : Z) : bool :=
-  if tree_okb c Q0 && shape_okb c (replay_final Q0 rs vs)
-  then ready =? 1 else true.
+  if shape_okb c (replay_final Q0 rs vs) then ready =? 1 else true.
